@@ -116,6 +116,15 @@ func processIMUL(env *Pass1, operands []ast.Exp) {
 
 	var size int = calculatedSize // デフォルトで計算されたサイズを使用します
 
+	// IMUL は codegen (handleIMUL) が matchAnyImm=false でエンコーディングを選ぶので、
+	// 同じ選び方でサイズを数えないと即値の幅 (imm8 か imm16/32 か) がずれる。
+	if instName == "IMUL" {
+		if enc, encErr := env.AsmDB.FindEncoding(instName, ngOperands, false); encErr == nil {
+			size = enc.GetOutputSize(nil) + env.AsmDB.GetPrefixSize(instName, ngOperands) +
+				ngOperands.CalcOffsetByteSize() + ngOperands.CalcSibByteSize()
+		}
+	}
+
 	// ★★★ IMUL r32, imm16/32 (16bit mode) のサイズ上書き処理 ★★★
 	// FindMinOutputSize が特定のケースで不正なサイズを返す問題への暫定対応。
 	// TODO: FindMinOutputSize または依存関係 (asmdb, ng_operand) を修正し、この暫定対応を削除する。
